@@ -8,79 +8,114 @@ import (
 	"golang.org/x/tools/go/ssa"
 )
 
-// Finite-domain evaluation of an extracted CFG fragment: conditions built from named
-// leaves, integer constants, +, - and comparisons are evaluated for concrete small
-// values; branches are followed until a terminal block. Comparisons of difference
-// terms depend only on the relative order of finitely many terms, so a grid large
-// enough to realise every ordering decides the relation for all values (overflow
-// aside, which the code does not guard either).
+// Finite-domain evaluation of an extracted CFG fragment: a tiny interpreter for
+// integer/boolean SSA values built from named leaves, constants, + - * / % and
+// comparisons, with branches, phis and short-circuit operators. Comparisons of
+// difference terms depend only on the relative order of finitely many terms, so a grid
+// large enough to realise every ordering decides the relation for all values (overflow
+// aside, which the code does not guard either). No repository code is executed: the
+// interpreter walks the SSA of the extracted fragment.
 
 type leaf struct {
 	M    VM
 	Name string
 }
 
-type evalErr struct{ msg string }
+type interp struct {
+	leaves []leaf
+	env    map[string]int64
+	vals   map[ssa.Value]any
+}
 
-func evalInt(v ssa.Value, leaves []leaf, env map[string]int64) (int64, error) {
-	for _, l := range leaves {
+func (it *interp) value(v ssa.Value) (any, error) {
+	for _, l := range it.leaves {
 		if l.M(v) {
-			x, ok := env[l.Name]
+			x, ok := it.env[l.Name]
 			if !ok {
-				return 0, fmt.Errorf("no value for %s", l.Name)
+				return nil, fmt.Errorf("no value for %s", l.Name)
 			}
 			return x, nil
 		}
 	}
+	if x, ok := it.vals[v]; ok {
+		return x, nil
+	}
 	switch x := v.(type) {
 	case *ssa.Const:
-		if x.Value != nil && x.Value.Kind() == constant.Int {
+		if x.Value == nil {
+			return nil, fmt.Errorf("nil constant")
+		}
+		switch x.Value.Kind() {
+		case constant.Int:
 			n, _ := constant.Int64Val(x.Value)
-			if g, ok := env["#const:"+x.Value.ExactString()]; ok {
-				return g, nil
-			}
 			return n, nil
+		case constant.Bool:
+			return constant.BoolVal(x.Value), nil
 		}
 	case *ssa.BinOp:
-		a, err := evalInt(x.X, leaves, env)
-		if err != nil {
-			return 0, err
-		}
-		b, err := evalInt(x.Y, leaves, env)
-		if err != nil {
-			return 0, err
-		}
-		switch x.Op {
-		case token.ADD:
-			return a + b, nil
-		case token.SUB:
-			return a - b, nil
-		case token.QUO:
-			if b == 0 {
-				return 0, fmt.Errorf("div by zero")
+		return it.binop(x)
+	case *ssa.UnOp:
+		if x.Op == token.NOT {
+			a, err := it.value(x.X)
+			if err != nil {
+				return nil, err
 			}
-			return a / b, nil
+			b, ok := a.(bool)
+			if !ok {
+				return nil, fmt.Errorf("! on non-bool")
+			}
+			return !b, nil
 		}
 	case *ssa.Convert:
-		return evalInt(x.X, leaves, env)
+		return it.value(x.X)
 	}
-	return 0, fmt.Errorf("cannot evaluate %s", v.String())
+	return nil, fmt.Errorf("cannot evaluate %s", v.String())
 }
 
-func evalBool(v ssa.Value, leaves []leaf, env map[string]int64) (bool, error) {
-	bo, ok := v.(*ssa.BinOp)
-	if !ok {
-		return false, fmt.Errorf("not a comparison: %s", v.String())
-	}
-	a, err := evalInt(bo.X, leaves, env)
+func (it *interp) binop(x *ssa.BinOp) (any, error) {
+	av, err := it.value(x.X)
 	if err != nil {
-		return false, err
+		return nil, err
 	}
-	b, err := evalInt(bo.Y, leaves, env)
+	bv, err := it.value(x.Y)
 	if err != nil {
-		return false, err
+		return nil, err
 	}
-	switch bo.Op {
+	if ab, ok := av.(bool); ok {
+		bb, ok2 := bv.(bool)
+		if !ok2 {
+			return nil, fmt.Errorf("mixed operands")
+		}
+		switch x.Op {
+		case token.AND:
+			return ab && bb, nil
+		case token.OR:
+			return ab || bb, nil
+		case token.EQL:
+			return ab == bb, nil
+		case token.NEQ:
+			return ab != bb, nil
+		}
+		return nil, fmt.Errorf("unsupported bool operator %s", x.Op)
+	}
+	a, b := av.(int64), bv.(int64)
+	switch x.Op {
+	case token.ADD:
+		return a + b, nil
+	case token.SUB:
+		return a - b, nil
+	case token.MUL:
+		return a * b, nil
+	case token.QUO:
+		if b == 0 {
+			return nil, fmt.Errorf("division by zero")
+		}
+		return a / b, nil
+	case token.REM:
+		if b == 0 {
+			return nil, fmt.Errorf("division by zero")
+		}
+		return a % b, nil
 	case token.LSS:
 		return a < b, nil
 	case token.LEQ:
@@ -94,32 +129,108 @@ func evalBool(v ssa.Value, leaves []leaf, env map[string]int64) (bool, error) {
 	case token.NEQ:
 		return a != b, nil
 	}
-	return false, fmt.Errorf("unsupported operator %s", bo.Op)
+	return nil, fmt.Errorf("unsupported operator %s", x.Op)
 }
 
-// runFragment interprets branches from block b until stop(block) says terminal;
-// returns the terminal block.
-func runFragment(b *ssa.BasicBlock, leaves []leaf, env map[string]int64, stop func(*ssa.BasicBlock) bool) (*ssa.BasicBlock, error) {
-	for steps := 0; steps < 64; steps++ {
-		if stop(b) {
+// run interprets from block b (entered from prev) until stop(block) or a Return.
+// It returns the terminal block and, for a Return, the value of result idx (if evaluable).
+func (it *interp) run(b, prev *ssa.BasicBlock, stop func(*ssa.BasicBlock) bool) (*ssa.BasicBlock, error) {
+	for steps := 0; steps < 256; steps++ {
+		for _, ins := range b.Instrs {
+			switch x := ins.(type) {
+			case *ssa.Phi:
+				found := false
+				for i, p := range b.Preds {
+					if p == prev {
+						v, err := it.value(x.Edges[i])
+						if err == nil {
+							it.vals[x] = v
+						}
+						found = true
+					}
+				}
+				if !found && prev != nil {
+					return nil, fmt.Errorf("phi without matching predecessor")
+				}
+			case *ssa.BinOp:
+				if v, err := it.binop(x); err == nil {
+					it.vals[x] = v
+				}
+			case *ssa.UnOp:
+				if x.Op == token.NOT {
+					if v, err := it.value(x); err == nil {
+						it.vals[x] = v
+					}
+				}
+			}
+		}
+		if stop != nil && stop(b) {
 			return b, nil
 		}
 		switch t := b.Instrs[len(b.Instrs)-1].(type) {
 		case *ssa.If:
-			c, err := evalBool(t.Cond, leaves, env)
+			cv, err := it.value(t.Cond)
 			if err != nil {
 				return nil, err
 			}
+			c, ok := cv.(bool)
+			if !ok {
+				return nil, fmt.Errorf("non-bool condition %s = %v (%T)", t.Cond.String(), cv, cv)
+			}
+			prev = b
 			if c {
 				b = b.Succs[0]
 			} else {
 				b = b.Succs[1]
 			}
 		case *ssa.Jump:
+			prev = b
 			b = b.Succs[0]
 		default:
 			return b, nil
 		}
 	}
 	return nil, fmt.Errorf("fragment too long")
+}
+
+func newInterp(leaves []leaf, env map[string]int64) *interp {
+	return &interp{leaves: leaves, env: env, vals: map[ssa.Value]any{}}
+}
+
+func evalInt(v ssa.Value, leaves []leaf, env map[string]int64) (int64, error) {
+	x, err := newInterp(leaves, env).value(v)
+	if err != nil {
+		return 0, err
+	}
+	n, ok := x.(int64)
+	if !ok {
+		return 0, fmt.Errorf("not an integer")
+	}
+	return n, nil
+}
+
+func runFragment(b *ssa.BasicBlock, leaves []leaf, env map[string]int64, stop func(*ssa.BasicBlock) bool) (*ssa.BasicBlock, error) {
+	return newInterp(leaves, env).run(b, nil, stop)
+}
+
+// evalBoolFunc interprets a small boolean function from its entry and returns its result.
+func evalBoolFunc(f *ssa.Function, leaves []leaf, env map[string]int64) (bool, error) {
+	it := newInterp(leaves, env)
+	tb, err := it.run(f.Blocks[0], nil, nil)
+	if err != nil {
+		return false, err
+	}
+	r, ok := tb.Instrs[len(tb.Instrs)-1].(*ssa.Return)
+	if !ok {
+		return false, fmt.Errorf("no return reached")
+	}
+	v, err := it.value(r.Results[0])
+	if err != nil {
+		return false, err
+	}
+	bv, ok := v.(bool)
+	if !ok {
+		return false, fmt.Errorf("non-bool result")
+	}
+	return bv, nil
 }
